@@ -390,3 +390,30 @@ fn k_arguments_max_11() {
         Err(_) => {}
     }
 }
+
+/// C08/C12: a later parameter whose string (or block) is still open makes the whole parameter list Incomplete — the
+/// streaming caller must wait for the rest instead of reporting an error (concrete inputs, cheap).
+#[kani::proof]
+#[kani::unwind(8)]
+#[kani::stub(core::str::from_utf8, ascii_only_from_utf8)]
+fn k_arguments_open_string() {
+    let input: &[u8] = b"7,'a\n";
+    let mut args: Vec<Value<'_>, MAX_ARGS> = Vec::new();
+    match run_arguments(input, &mut args) {
+        Err(ParseError::Incomplete) => {}
+        Ok(_) => panic!("parameter list with an open string accepted"),
+        Err(_) => panic!("open string in the second parameter reported as an error instead of Incomplete"),
+    }
+}
+#[kani::proof]
+#[kani::unwind(8)]
+#[kani::stub(core::str::from_utf8, ascii_only_from_utf8)]
+fn k_arguments_open_block() {
+    let input: &[u8] = b"7,#13a\n";
+    let mut args: Vec<Value<'_>, MAX_ARGS> = Vec::new();
+    match run_arguments(input, &mut args) {
+        Err(ParseError::Incomplete) => {}
+        Ok(_) => panic!("parameter list with an incomplete block accepted"),
+        Err(_) => panic!("incomplete block in the second parameter reported as an error instead of Incomplete"),
+    }
+}
